@@ -23,8 +23,9 @@ def imm_class(c):
 def run(chk):
     h = common.go_build("enc")
     chk.assume("RISC-V: RV64I + M (51 mnemonics; no CSR, fence, ecall, atomics, floating point); LoongArch64: 82 integer mnemonics (3R, shifts, 12-bit immediates, loads/stores, 20-bit "
-               "immediates, branches, alsl/bytepick); AArch64 and x86-64 encoders are not covered (no specification of their tables; x/arch disassemblers are not installed); the "
-               "independent decoder is the specification's field read-back, the repository's own decoders are checked against it")
+               "immediates, branches, alsl/bytepick); x86-64: eight two-operand 64-bit integer instructions in register-register, load and store forms over all 16 registers and 12 displacements, "
+               "disassembled with the repository's copy of golang.org/x/arch x86asm; AArch64 is not covered; for RISC-V/LoongArch the independent decoder is the "
+               "specification's field read-back, the repository's own decoders are checked against it")
     res = common.run_tlc("isa", "EncFmt", "encfmt.cfg", collect_prefix='<<"T"', timeout=3000)
     if res.violated:
         raise MachineryError("EncFmt.tla disagrees with the encodings printed in the manuals: " + res.violated)
@@ -85,6 +86,58 @@ def run(chk):
     chk.cov["explanation"] = "every (mnemonic, register tuple, immediate) case of EncFmt.tla encoded by the repository's encoder and, when the word is right, decoded by its decoder"
     chk.sample(cases[0])
     chk.sample(cases[len(cases) // 2])
+    x64(chk, h)
+
+
+def x64(chk, h):
+    """X64ModRM.tla: ModRM/SIB/displacement forms against x64.Encode and the repository's copy of the x86asm disassembler"""
+    res = common.run_tlc("isa", "X64ModRM", "x64.cfg", collect_prefix='<<"T"', timeout=1200)
+    if res.violated:
+        raise MachineryError("X64ModRM.tla disagrees with the encodings printed in the manual: " + res.violated)
+    chk.tlc(res, "X64ModRM (REX/ModRM/SIB/displacement)")
+    cases = [json.loads(common.parse_printt(l, "T")[0]) for l in res.lines]
+    cases.sort(key=lambda c: (c["op"], c["form"], c["reg"], c["base"], c["disp"]))
+    for i, c in enumerate(cases):
+        c["id"] = i
+    p = subprocess.run([h, "x64"], input="".join(json.dumps({k: c[k] for k in ("id", "op", "form", "reg", "base", "disp")}) + "\n" for c in cases), capture_output=True, text=True, timeout=1200)
+    if p.returncode != 0:
+        raise MachineryError("enc x64 failed: " + p.stderr[-400:])
+    out = {}
+    for l in p.stdout.splitlines():
+        r = json.loads(l)
+        out[r["id"]] = r
+    rejected = noncanon = 0
+    for c in cases:
+        r = out[c["id"]]
+        where = "x64:%s:%s" % (c["op"], c["form"])
+        desc = ("%s r%d, [r%d%+d]" % (c["op"], c["reg"], c["base"], c["disp"]) if c["form"] == "load" else
+                "%s [r%d%+d], r%d" % (c["op"], c["base"], c["disp"], c["reg"]) if c["form"] == "store" else "%s r%d, r%d" % (c["op"], c["reg"], c["base"]))
+        if not r["accepted"]:
+            rejected += 1
+            continue
+        chk.add("traces_validated_against_impl", 1)
+        code = " ".join("%02x" % b for b in r["code"])
+        # the independent disassembler must return the operation and operands, and consume exactly the produced bytes
+        if c["form"] == "load":
+            wdst, wsrc = "reg:%d" % c["reg"], "mem:%d:%d" % (c["base"], c["disp"])
+        elif c["form"] == "store":
+            wdst, wsrc = "mem:%d:%d" % (c["base"], c["disp"]), "reg:%d" % c["reg"]
+        else:
+            wdst, wsrc = "reg:%d" % c["reg"], "reg:%d" % c["base"]
+        if r["dec_err"]:
+            chk.report("C17:disassembler-rejects:%s" % where, "%s encodes to %s, which the disassembler rejects: %s" % (desc, code, r["dec_err"][:100]), {"case": c, "result": r})
+        elif r["dec_len"] != len(r["code"]) or r["dec_op"] != c["op"] or r["dec_dst"] != wdst or r["dec_src"] != wsrc:
+            chk.report("C17:disassembles-differently:%s" % where, "%s encodes to %s (%d bytes), which disassembles to `%s` (%d bytes)" % (desc, code, len(r["code"]), r["dec_text"], r["dec_len"]),
+                       {"case": c, "result": r})
+        elif r["code"] not in c["enc"]:
+            # decodes correctly but is not the manual's shortest form: recorded, not a violation of the property
+            noncanon += 1
+    chk.cov["x64_cases"] = len(cases)
+    chk.cov["x64_rejected_by_encoder"] = rejected
+    chk.cov["x64_correct_but_not_shortest_form"] = noncanon
+    if rejected > len(cases) // 2:
+        raise MachineryError("the x64 encoder rejects %d of %d cases: the harness builds the operands wrongly" % (rejected, len(cases)))
+    chk.sample(cases[len(cases) // 3])
 
 
 def replay(chk, path):
